@@ -1,6 +1,6 @@
 (* C14 — accept / reject clauses, totality of the header loop, case-insensitive lookup *)
 From Coq Require Import Arith.
-From Rws Require Import Str Utf8 Num Request StrLemmas Utf8Lemmas TrimLemmas RequestProofs StaticRes.
+From Rws Require Import Str Utf8 Num Unicase Request StrLemmas Utf8Lemmas TrimLemmas RequestProofs StaticRes.
 Open Scope N_scope.
 
 (* the header loop never runs out of fuel and has no panic site: with fuel > length of the rest it returns Ok *)
@@ -30,7 +30,7 @@ Qed.
 (* ... and the request-line parser accepts: known method (any letter case), a target without space, known version *)
 Theorem request_line_accepts line m u v :
   trim line = m ++ [SP] ++ u ++ [SP] ++ v -> ~ In 32 m -> ~ In 32 u ->
-  mem (upper m) methods = true -> mem (upper v) versions = true ->
+  mem (uupper m) methods = true -> mem (uupper v) versions = true ->
   parse_request_line line = Some (m, u, v).
 Proof.
   intros Ht Hm Hu Hmm Hv. unfold parse_request_line. rewrite Ht.
@@ -49,25 +49,25 @@ Proof. intros Hu H. unfold parse_request. destruct (split_line input) as [line r
 Theorem request_line_rejects line :
   (split_once (trim line) [SP] = None) \/
   (exists m rest, split_once (trim line) [SP] = Some (m, rest) /\
-     (mem (upper m) methods = false \/ split_once rest [SP] = None \/
-      exists u v, split_once rest [SP] = Some (u, v) /\ mem (upper v) versions = false)) ->
+     (mem (uupper m) methods = false \/ split_once rest [SP] = None \/
+      exists u v, split_once rest [SP] = Some (u, v) /\ mem (uupper v) versions = false)) ->
   parse_request_line line = None.
 Proof.
   unfold parse_request_line. intros [H | (m & rest & H & Hc)]; rewrite H; [reflexivity|].
   destruct Hc as [Hm | [Hs | (u & v & Hs & Hv)]].
   - rewrite Hm. reflexivity.
-  - destruct (negb (mem (upper m) methods)); [reflexivity|]. rewrite Hs. reflexivity.
-  - destruct (negb (mem (upper m) methods)); [reflexivity|]. rewrite Hs, Hv. reflexivity.
+  - destruct (negb (mem (uupper m) methods)); [reflexivity|]. rewrite Hs. reflexivity.
+  - destruct (negb (mem (uupper m) methods)); [reflexivity|]. rewrite Hs, Hv. reflexivity.
 Qed.
 (* conversely, acceptance implies the three-field shape: the parser accepts exactly those lines *)
 Theorem request_line_accept_shape line m u v : parse_request_line line = Some (m, u, v) ->
   exists rest, split_once (trim line) [SP] = Some (m, rest) /\ split_once rest [SP] = Some (u, v) /\
-               mem (upper m) methods = true /\ mem (upper v) versions = true.
+               mem (uupper m) methods = true /\ mem (uupper v) versions = true.
 Proof.
   unfold parse_request_line. destruct (split_once (trim line) [SP]) as [[m' rest]|]; [|discriminate].
-  destruct (mem (upper m') methods) eqn:Em; cbn [negb]; [|discriminate].
+  destruct (mem (uupper m') methods) eqn:Em; cbn [negb]; [|discriminate].
   destruct (split_once rest [SP]) as [[u' v']|] eqn:Es; [|discriminate].
-  destruct (mem (upper v') versions) eqn:Ev; cbn [negb]; [|discriminate].
+  destruct (mem (uupper v') versions) eqn:Ev; cbn [negb]; [|discriminate].
   intro H. inversion H; subst. exists rest. auto.
 Qed.
 
@@ -86,13 +86,13 @@ Proof. unfold parse_request. destruct (split_line input) as [line rest]. destruc
   destruct (headers_loop (S (length rest)) rest) as [[hs bd]| |] eqn:E; try discriminate. exfalso. eapply headers_loop_nopanic; eauto. Qed.
 
 (* header lookup ignores ASCII letter case and returns the first match *)
-Theorem lookup_ci r n n' : lower n = lower n' -> get_header r n = get_header r n'.
+Theorem lookup_ci r n n' : ulower n = ulower n' -> get_header r n = get_header r n'.
 Proof. intro H. unfold get_header. rewrite H. reflexivity. Qed.
 Theorem lookup_first r n h : get_header r n = Some h ->
-  exists pre post, headers r = pre ++ h :: post /\ lower (hname h) = lower n /\ Forall (fun x => lower (hname x) <> lower n) pre.
+  exists pre post, headers r = pre ++ h :: post /\ ulower (hname h) = ulower n /\ Forall (fun x => ulower (hname x) <> ulower n) pre.
 Proof.
   unfold get_header. generalize (headers r) as hs. induction hs as [|x hs IH]; cbn [find]; [discriminate|].
-  destruct (beqs (lower (hname x)) (lower n)) eqn:E.
+  destruct (beqs (ulower (hname x)) (ulower n)) eqn:E.
   - intro H. inversion H; subst. exists [], hs. apply beqs_eq in E. repeat split; auto.
   - intro H. destruct (IH H) as (pre & post & E1 & E2 & E3). exists (x :: pre), post. rewrite E1. repeat split; auto.
     constructor; [|exact E3]. intro Hx. rewrite Hx, beqs_refl in E. discriminate.
